@@ -183,7 +183,7 @@ for _w in ("manifest", "list"):
                   functions=[f"file_manager:FileManager.read_manifest_{'file' if _w == 'manifest' else 'list_file'}"], replay=_replay_fallback))
 
 from contracts import helpers as _HLP  # noqa: E402
-_HLP.register_under("C14", ["HELPER/verify_checksum", "HELPER/_get_current_schema", "HELPER/metadata-file-io"])
+_HLP.register_under("C14", ["HELPER/verify_checksum", "HELPER/compute_checksum", "HELPER/_get_current_schema", "HELPER/metadata-file-io"])
 
 # what the read path trusts about the writers: entries carry every field the schema knows (a key outside the schema is silently
 # dropped by fastavro - e.g. the checksum - and verification would silently turn off)
